@@ -11,32 +11,32 @@ import (
 
 // ctx is the per-function verification context: arithmetic mode, declarations.
 type ctx struct {
-	bv    bool // arithmetic mode
-	d     *decls
-	sorts map[string]string    // types.Type string -> sort
-	structs map[string]*structInfo // sort name -> info
-	iface *datatype            // the single interface datatype
-	ifaceCtors map[string]*dtCtor // by type key
-	ifaceTypes map[string]types.Type
-	slice *datatype
-	strLits map[string]*T
-	strLitOrder []string
-	typeIDs map[string]int
+	bv              bool // arithmetic mode
+	d               *decls
+	sorts           map[string]string      // types.Type string -> sort
+	structs         map[string]*structInfo // sort name -> info
+	iface           *datatype              // the single interface datatype
+	ifaceCtors      map[string]*dtCtor     // by type key
+	ifaceTypes      map[string]types.Type
+	slice           *datatype
+	strLits         map[string]*T
+	strLitOrder     []string
+	typeIDs         map[string]int
 	assumptionsUsed map[string]bool
-	defNames map[string]bool
-	defAsserts map[*T]string
-	usesIx bool
-	usesBits bool
-	strExt []*T
-	twins []*T
-	twinSeen map[string]bool
-	strExtSeen map[string]bool
-	wrap64 bool // int mode: 64-bit arithmetic wraps (exact) instead of producing overflow obligations
-	facts []symFact // facts about heap symbols (value ranges), rendered when the symbol is used
-	iptrs map[string]iptrInfo // interior-pointer encodings: function name -> (base type, field path)
-	axiomAsserts map[*T]bool // assertions that are package axioms (pruned from queries they share no function symbol with)
-	eptrs map[string]types.Type // element-pointer encodings: function name -> element type
-	wideBitFns map[string]int // int mode: uninterpreted bitwise functions on wide unsigned values -> width
+	defNames        map[string]bool
+	defAsserts      map[*T]string
+	usesIx          bool
+	usesBits        bool
+	strExt          []*T
+	twins           []*T
+	twinSeen        map[string]bool
+	strExtSeen      map[string]bool
+	wrap64          bool                  // int mode: 64-bit arithmetic wraps (exact) instead of producing overflow obligations
+	facts           []symFact             // facts about heap symbols (value ranges), rendered when the symbol is used
+	iptrs           map[string]iptrInfo   // interior-pointer encodings: function name -> (base type, field path)
+	axiomAsserts    map[*T]bool           // assertions that are package axioms (pruned from queries they share no function symbol with)
+	eptrs           map[string]types.Type // element-pointer encodings: function name -> element type
+	wideBitFns      map[string]int        // int mode: uninterpreted bitwise functions on wide unsigned values -> width
 }
 
 // an interior pointer &obj.f1.f2 that escapes to memory is the term iptr_k(ref): an uninterpreted function of the
@@ -260,7 +260,7 @@ func (c *ctx) sortOf1(t types.Type) string {
 
 type unsupportedErr string
 
-func (u unsupportedErr) Error() string { return string(u) }
+func (u unsupportedErr) Error() string    { return string(u) }
 func unsupported(s string) unsupportedErr { return unsupportedErr("unsupported: " + s) }
 
 func (c *ctx) structOf(t types.Type) *structInfo {
@@ -1023,7 +1023,9 @@ func (c *ctx) ix(off, k *T) *T {
 }
 
 // strExtInstance records an instance of string extensionality for the pair (a, b):
-//   a = b  or  slen(a) != slen(b)  or  the strings differ at index sdiff(a,b).
+//
+//	a = b  or  slen(a) != slen(b)  or  the strings differ at index sdiff(a,b).
+//
 // Only recorded for ground terms (no bound variables).
 func (c *ctx) strExtInstance(a, b *T) {
 	at := map[string]bool{}
